@@ -47,7 +47,7 @@ func kinds(r *rand.Rand, T time.Duration) []blk.Kind {
 }
 
 var cancelModes = []string{"none", "before-arrival", "at-arrival", "mid", "at-bound", "after-bound"}
-var arriveModes = []string{"early", "at-deadline", "after-deadline"}
+var arriveModes = []string{"early", "at-deadline", "after-deadline", "just-before-deadline"}
 
 func run(t *testing.T, idx int64, r *rand.Rand, kindIdx, cmIdx, amIdx int, exhausted bool) {
 	T := time.Duration(1+r.IntN(5000)) * time.Millisecond
@@ -86,6 +86,18 @@ func run(t *testing.T, idx int64, r *rand.Rand, kindIdx, cmIdx, amIdx int, exhau
 			arrive = T
 		case "after-deadline":
 			arrive = T + 1 + time.Duration(r.Int64N(int64(T)))
+		case "just-before-deadline": // less than a millisecond (down to 1 ns) of the deadline left
+			d := time.Duration(1 + r.Int64N(999999))
+			if r.IntN(4) == 0 {
+				d = []time.Duration{1, 2, 999, 1000, 999999}[r.IntN(5)]
+			}
+			if d >= T {
+				d = T - 1
+			}
+			if d < 1 {
+				d = 1
+			}
+			arrive = T - d
 		}
 		time.Sleep(arrive - w.Now())
 		// the call's own bound
@@ -110,6 +122,8 @@ func run(t *testing.T, idx int64, r *rand.Rand, kindIdx, cmIdx, amIdx int, exhau
 				cancelAt = arrive + 1 + time.Duration(r.Int64N(int64(bound-arrive-1)))
 			} else if bound == 0 {
 				cancelAt = arrive + 1 + time.Duration(r.Int64N(int64(T)))
+			} else if bound > arrive {
+				cancelAt = -1 // one nanosecond before the bound: there is no instant strictly between arrival and bound
 			} else {
 				cancelAt = arrive
 			}
@@ -533,7 +547,7 @@ func TestCheck(t *testing.T) {
 	var cells []cell
 	for k := 0; k < 9; k++ {
 		for c := 0; c < 6; c++ {
-			for a := 0; a < 3; a++ {
+			for a := 0; a < 4; a++ {
 				if a > 0 && k != 2 {
 					continue
 				}
